@@ -415,6 +415,8 @@ RULES = [
     ("X-ROOTS", "root option defaults, Root::new and the per-root reset of parse_roots [shared]", lambda ctx: __import__("extra").root_defaults(ctx)),
     ("X-LEXCHARS", "the lexer reads the query by characters, not bytes [shared]", lambda ctx: __import__("extra2").lexer_reads_characters(ctx)),
     ("C11-R6", "clause keywords (order, by, asc, desc, ..) are keywords in every position", lambda ctx: __import__("extra2").keyword_arm_guards(ctx)),
+    ("C02-R4", "quoted literals are never resolved as column / function names [shared with C02]", lambda ctx: __import__("c02").r4(ctx)),
+    ("X-LEXEMS", "every lexem but an empty quoted string reaches the grammar (a blank string is a value) [shared]", lambda ctx: __import__("extra2").lexems_are_kept(ctx)),
 ]
 
 EXPLANATION = (
